@@ -252,7 +252,7 @@ def run(ctx: Ctx) -> None:
                 " every valid cut + one surplus + one missing variant each; plus random DAGs up to 6 functions; "
                 "non-trivial = at least one user function executed")
     ctx.assumptions = ["TLC and the JSON encoding are trusted", "user functions are free term constructors",
-                       "positional-only/var-args signatures and pydantic/dataclass callables are not generated"]
+                       "positional-only/var-args signatures and pydantic callables are not generated (dataclass callables are)"]
     cases: list[dict] = []
     if quick:
         wd = ctx.workdir("u2")
